@@ -517,7 +517,12 @@ def c11_7(run):
         k = sum(1 for e in ctx.st.log if e[0] == 'fetch')
         done = z3.Bool(f'fetch_{k}_done')
         blk = Obj('SequencerBlock', kind='opaque'); blk.attrs['ident'] = ('block_fetched_for', hgt)
-        return [(None, M.thunk_future(lambda ex, s2, fut: [(done, (lambda s3: _ok(s3.tr(fut.attrs['blk'])))), (z3.Not(done), _enum('Poll', 'Pending', []))], blk=blk))]
+        failed = z3.Bool(f'fetch_{k}_failed')
+        if k >= 2:
+            # a second fetch inside one poll (only possible when a completed fetch was not handed on): it stays pending, which ends the poll loop; the claims below flag it
+            return [(None, M.thunk_future(lambda ex, s2, fut: [(None, _enum('Poll', 'Pending', []))]))]
+        return [(None, M.thunk_future(lambda ex, s2, fut: [(z3.And(done, z3.Not(failed)), (lambda s3: _ok(s3.tr(fut.attrs['blk'])))), (z3.And(done, failed), (lambda s3: _err(Obj('eyre::Report', kind='error')))),
+                                                            (z3.Not(done), _enum('Poll', 'Pending', []))], blk=blk))]
     hooks = [(R(r'(^|::)fetch_block$'), h_fetch), (R(r'(^|::)Height::increment$'), lambda ctx: [(None, ctx.ex.deref_val(ctx.st, ctx.args[0]) + 1)]),
              (R(r'(^|::)Height::value$'), lambda ctx: [(None, ctx.ex.deref_val(ctx.st, ctx.args[0]))]),
              (R(r'^<(tendermint::block::)?Height as From<u32>>::from$'), lambda ctx: [(None, z3.ZeroExt(32, ctx.args[0]))]),
@@ -574,6 +579,9 @@ def c11_7(run):
                 post = ex.deref_val(p, bs) if False else ex.read(p, p.roots['args'][0].fields[('in', 0)].loc) if False else None
                 allowed = z3.And(z3.BoolVal(has_lo and not paused), z3.ULE(nxt, lo))
                 run.sample({'has_last_observed': has_lo, 'paused': paused, 'path': i, 'fetches': len(fetches), 'result': str(p.result.discr)})
+                if fetches:
+                    run.prove(f'a fetch that completed (block or error) is always handed on by this poll: nothing completed is dropped {lab}', p.pc,
+                              z3.Implies(z3.Bool('fetch_1_done'), z3.BoolVal(p.result.discr == 'Ready' and ex.deref_val(p, p.result.fields[('Ready', 0)]).discr == 'Some')))
                 run.prove(f'a fetch is scheduled iff not paused and next <= last observed; at most one; for exactly `next` {lab}', p.pc,
                           z3.And(z3.BoolVal(len(fetches) <= 1), z3.BoolVal(len(fetches) == 1) == allowed, *[f_ == nxt for f_ in fetches]))
                 pin1 = p.roots['args'][0]; bs1 = ex.deref_val(p, pin1.fields[('in', 0)])
@@ -587,8 +595,12 @@ def c11_7(run):
                     item = ex.deref_val(p, r.fields[('Ready', 0)])
                     if item.discr == 'Some':
                         hgt, res = item.fields[('Some', 0)]
-                        blk = ex.deref_val(p, ex.deref_val(p, res).fields[('Ok', 0)])
-                        run.prove(f'a yielded block carries the height it was requested for {lab}', p.pc, z3.And(ex.deref_val(p, hgt) == nxt, z3.BoolVal(len(fetches) == 1 and blk.attrs.get('ident', (None, None))[0] == 'block_fetched_for'), blk.attrs['ident'][1] == nxt))
+                        res = ex.deref_val(p, res)
+                        if res.discr == 'Ok':
+                            blk = ex.deref_val(p, res.fields[('Ok', 0)])
+                            run.prove(f'a yielded block carries the height it was requested for {lab}', p.pc, z3.And(ex.deref_val(p, hgt) == nxt, z3.Not(z3.Bool('fetch_1_failed')), z3.BoolVal(len(fetches) == 1 and blk.attrs.get('ident', (None, None))[0] == 'block_fetched_for'), blk.attrs['ident'][1] == nxt))
+                        else:
+                            run.prove(f'a failed fetch is reported under its own height (the relayer stops and resumes from it); it is never skipped {lab}', p.pc, z3.And(ex.deref_val(p, hgt) == nxt, z3.Bool('fetch_1_failed'), z3.BoolVal(len(fetches) == 1)))
                     else:
                         run.prove(f'the stream reports nothing to do only when no fetch was scheduled {lab}', p.pc, z3.BoolVal(len(fetches) == 0))
     if n < 8:
